@@ -8,6 +8,7 @@ import (
 	"net"
 	"net/url"
 	"os"
+	"strings"
 	"time"
 
 	clientv3 "go.etcd.io/etcd/client/v3"
@@ -35,6 +36,23 @@ func freePort() int {
 func Start(dir string) (*Box, error) { return StartAt(dir, 0, 0) }
 
 func StartAt(dir string, clientPort, peerPort int) (*Box, error) {
+	if clientPort != 0 || peerPort != 0 {
+		return startAt(dir, clientPort, peerPort)
+	}
+	// ports are picked by bind-and-release, so a concurrent process can grab one in between: try again
+	var b *Box
+	var err error
+	for attempt := 0; attempt < 8; attempt++ {
+		b, err = startAt(dir, 0, 0)
+		if err == nil || !strings.Contains(err.Error(), "address already in use") {
+			return b, err
+		}
+		time.Sleep(50 * time.Millisecond)
+	}
+	return b, err
+}
+
+func startAt(dir string, clientPort, peerPort int) (*Box, error) {
 	if err := os.MkdirAll(dir, 0o755); err != nil {
 		return nil, err
 	}
